@@ -2,6 +2,7 @@
 mod codec_cases;
 mod fq;
 mod pipes;
+mod proxy;
 mod sock;
 mod ts;
 mod util;
@@ -69,6 +70,7 @@ fn run_case(kind: &str, args: &[&str]) -> String {
         "sock" => sock::run(args),
         "fq" => fq::run(args),
         "ts" => ts::run(args),
+        "proxy" => proxy::run(args),
         "compat" => codec_cases::compat(args),
         "stypename" => codec_cases::stypename(args),
         _ => format!("unknown-kind {}", kind),
